@@ -329,6 +329,7 @@ static int run_mutex(int rounds, const char *outf) {
         vh_bprintf(&mb, "{\"ev\":\"reset\",\"t\":0,\"ok\":true,\"cnt\":%d,\"depth\":%ld}", MX->count, vh_locks - vh_unlocks); vh_bflush(&mb);
         vh_hook_locked = m_locked; vh_hook_unlocked = m_unlocked;
         me = 0; m_other = 1;
+        vh_where = "lock-protocol"; vh_watchdog(60);      /* a waiter that never gets in, or gets in without the lock, ends here */
         int cycles = 1 + r % 3;
         m_failed = 0; m_target = (long) cycles * (MAX_MUTEX_LOCK_WAIT + 1) + 7 * r;   /* release in the middle of a spin cycle too */
         int x = 5;
@@ -339,6 +340,7 @@ static int run_mutex(int rounds, const char *outf) {
         mev("enter", 1);
         L->addlast(L, &x, sizeof x);                      /* spins, force-unlocks, finally acquires */
         pthread_join(th, NULL);
+        alarm(0);
         vh_hook_locked = NULL; vh_hook_unlocked = NULL;
         vh_bprintf(&mb, "{\"ev\":\"end\",\"t\":0,\"ok\":%s,\"cnt\":%d,\"depth\":%ld}", vh_bool(L->size(L) == 2), MX->count, vh_locks - vh_unlocks); vh_bflush(&mb);
         rel();
